@@ -13,6 +13,7 @@ THEOREMS = [
     "Mtv.Ige.ige_refuses",
     "Mtv.Ige.encrypt_pad",
     "Mtv.Ige.decrypt_msg",
+    "Mtv.Ige.short_key_refused",
     "Mtv.Ige.tempKeys_eq_spec",
     "Mtv.Ige.decryptTemp_of_conformant",
     "Mtv.Ige.tempWrap_roundtrip",
